@@ -5,6 +5,7 @@ use std::panic;
 
 mod alloc;
 mod ops_basic;
+mod ops_hash;
 
 pub fn unhex(s: &str) -> Option<Vec<u8>> {
     if s == "-" {
@@ -26,6 +27,9 @@ fn run_line(line: &str) -> String {
     let op = it.next().unwrap_or("");
     let args: Vec<&str> = it.collect();
     if let Some(r) = ops_basic::run(op, &args) {
+        return r;
+    }
+    if let Some(r) = ops_hash::run(op, &args) {
         return r;
     }
     "BADCASE".to_string()
